@@ -175,7 +175,7 @@ def check(run, repo):
     n_wrappers = 0
 
     # ---- (a) mode classes: the seven _ModelBase wrappers ------------------
-    I = Interp(repo, max_depth=12)
+    I = Interp(repo)
     D = I.D
     nH, nO = D.sym('nH'), D.sym('nO')
     molw = C(aw['H']) * nH + C(aw['O']) * nO
@@ -196,7 +196,7 @@ def check(run, repo):
     # ---- (b) StatMech ---------------------------------------------------------
     ci = repo.cls('pmutt.statmech.StatMech')
     methods = ['get_q'] + ['get_' + q for q in QUANT] + ['get_ZPE']
-    I = Interp(repo, max_depth=12)
+    I = Interp(repo)
     D = I.D
     nH, nO = D.sym('nH'), D.sym('nO')
     molw = C(aw['H']) * nH + C(aw['O']) * nO
@@ -246,7 +246,7 @@ def check(run, repo):
                         ('Shomate', 'pmutt.empirical.shomate.Shomate')):
         ci = repo.cls(qual)
         from ..xlate import RankOrder
-        I = Interp(repo, max_depth=12, order=RankOrder({'sp.T_low': 1, 'sp.T_mid': 5, 'sp.T_high': 9, 'T': 3,
+        I = Interp(repo, order=RankOrder({'sp.T_low': 1, 'sp.T_mid': 5, 'sp.T_high': 9, 'T': 3,
                                                         'seg0.T_low': 1, 'seg0.T_high': 9}))
         mix_opaque(I)
         D = I.D
@@ -275,7 +275,7 @@ def check(run, repo):
     for cname, qual in (('Reaction', 'pmutt.reaction.Reaction'), ('ChemkinReaction', 'pmutt.reaction.ChemkinReaction'),
                         ('SurfaceReaction', 'pmutt.omkm.reaction.SurfaceReaction')):
         ci = repo.cls(qual)
-        I = Interp(repo, max_depth=12)
+        I = Interp(repo)
         D = I.D
         rxn, rs, ps, ts = reaction(I, repo, qual)
         for wname, tname, q, owner, fn in wrappers_of(repo, ci):
@@ -297,7 +297,7 @@ def check(run, repo):
                          unit_variants(rkeys, thorough and not var.get('rev') and not var.get('act'), per_mass=False),
                          None, counter)
     # ---- (e) BEP --------------------------------------------------------------------
-    I = Interp(repo, max_depth=12)
+    I = Interp(repo)
     D = I.D
     rx = opaque_obj(I, 'rxn', {k: ('T', 'units', 'rev', 'state', 'P') for k in
                                ('get_delta_E', 'get_delta_H', 'get_H_state', 'get_E_state')})
